@@ -38,6 +38,7 @@ def restart(scen, info, mode):
         target._initialize_searcher()
     searcher = target.searcher
     rng_before = _rng_digest(searcher)
+    skip_before = _skip_digest(searcher)
     state = pickle.loads(pickle.dumps(searcher.get_state()))
     fresh, _ = zoo.build_scheduler(scen)
     fresh_target = fresh.scheduler if scen["kind"] == "median" and hasattr(fresh, "scheduler") else fresh
@@ -49,7 +50,22 @@ def restart(scen, info, mode):
     rng_after = _rng_digest(clone)
     if rng_before is not None and rng_before != rng_after:
         return "the restored searcher's random generator is not in the state of the original's (%s vs %s)" % (rng_after, rng_before)
+    skip_after = _skip_digest(clone)
+    if skip_before is not None and skip_before != skip_after:
+        return "the restored searcher's skip-optimization predicate is not in the state of the original's (%s vs %s)" % (skip_after, skip_before)
     return None
+
+
+def _skip_digest(searcher):
+    """State of the predicate deciding when the surrogate's hyperparameters are refitted (documented part of the state)."""
+    st = getattr(searcher, "state_transformer", None)
+    pred = getattr(st, "skip_optimization", None) if st is not None else None
+    if pred is None:
+        return None
+    try:
+        return "%s%s" % (type(pred).__name__, sorted((k, repr(v)) for k, v in vars(pred).items()))
+    except TypeError:
+        return type(pred).__name__
 
 
 def _rng_digest(searcher):
@@ -122,7 +138,8 @@ def run(scen, spec, props):
                              None, mode=mode, where=state.get("where"), searcher=_searcher_kind(scen)))
         return res
     if state.get("rng"):
-        res["viol"].append(V("C16", "R3.restored_rng_differs", trA, "restore (%s) at call boundary %d of %d: %s" % (mode, p, H, state["rng"]),
+        res["viol"].append(V("C16", "R3.restored_rng_differs" if "generator" in state["rng"] else "R3.restored_predicate_differs", trA,
+                             "restore (%s) at call boundary %d of %d: %s" % (mode, p, H, state["rng"]),
                              None, mode=mode, searcher=_searcher_kind(scen)))
     dB = common.decisions(trB)
     gp_state_route = mode == "state" and scen["kind"] not in zoo.MODEL_FREE
